@@ -1,7 +1,8 @@
 import Dasp.Driver.Loop
+import Dasp.Driver.Converter
 open Dasp.Driver
 
--- stub: replaced when property C08 is wired in
 def main : IO Unit := runDriver fun
+  | "conv" :: rest => Cv.convLine rest
   | [] => ""
   | _ => "bad-op"
